@@ -16,26 +16,29 @@ def main():
     ck.check_props()
     Nmax = 16
     items = [[N, k] for N in range(2, Nmax + 1) for k in range(0, N + 2)]
+    items += [[N, k] for N in (17, 24, 31, 32, 33, 40, 64, 65) for k in sorted({1, 2, 3, N // 2, N - 2, N - 1, N})]
     res = [r for rr in ck.impl("c07", [{"op": "universal", "items": items[i:i + 40]} for i in range(0, len(items), 40)]) for r in rr["res"]]
     mod = ck.oracle(["universal %d %d" % (N, k) for N, k in items])
     stats = {"sets_compared": len(items), "closures": 0, "classified": 0}
     nt = set()
+    tie_broken = 0
     for (N, k), r, m in zip(items, res, mod):
         want = ["ValueError"] if m == "ValueError" else ["ok", m.split()]
         admissible = 2 <= k < N and N >= 3
         if r != want:
-            if admissible or r[0] == "ok" and want[0] == "ok":
-                ck.fail(None, "construct_universal_set(%d,%d): implementation %r, model %r" % (N, k, r, want), {"N": N, "k": k, "implementation": r, "model": want})
-            else:
-                ck.correspondence_broken("construct_universal_set(%d,%d) guard: implementation %r, model %r" % (N, k, r, want), {"N": N, "k": k})
-            continue
+            # the tie to Model/Compiler.v is broken; whether the PROPERTY fails is judged below on the implementation's own set
+            tie_broken += 1
+            if tie_broken <= 2:
+                ck.correspondence_broken("construct_universal_set(%d,%d): implementation %r, model %r" % (N, k, r, want), {"N": N, "k": k, "implementation": r, "model": want})
         if admissible:
+            if r[0] != "ok":
+                ck.fail(None, "construct_universal_set(%d,%d) is %s for an admissible block size" % (N, k, r), {"N": N, "k": k, "implementation": r}); continue
             S = r[1]
-            if len(S) != 2 * N + 1 or len(set(S)) != len(S) or any(len(s) != N for s in S):
-                ck.fail(None, "universal set (%d,%d) is not 2N+1 distinct strings of length N" % (N, k), {"N": N, "k": k, "set": S})
+            if len(S) != 2 * N + 1 or len(set(S)) != len(S) or any(len(s) != N for s in S) or any(set(s) - set("IXYZ") for s in S):
+                ck.fail(None, "universal set (%d,%d) is not 2N+1 distinct strings of length N: %d strings, %d distinct" % (N, k, len(S), len(set(S))), {"N": N, "k": k, "set": S})
     # closure = all non-identity strings
     cmax = 6 if ck.quick else 8
-    pairs = [(N, k) for N in range(3, cmax + 1) for k in range(2, N)]
+    pairs = [(N, k) for N in range(3, cmax + 1) for k in range(2, N) if dict(zip(map(tuple, items), res))[(N, k)][0] == "ok"]
     cards = ck.oracle(["closure_card %d %s" % (N, " ".join(ck_set)) for (N, k), ck_set in zip(pairs, [dict(zip(map(tuple, items), res))[(N, k)][1] for N, k in pairs])], procs=8)
     for (N, k), c in zip(pairs, cards):
         stats["closures"] += 1
